@@ -245,3 +245,38 @@ Theorem C10_eval_slice_agrees (V : Type) (lc : label -> outcome loc) (st : cstat
   exists l, eval_slice_with lc st name a b s = Ret l /\ get_item_with lc st name (KSlice a b (Some s)) = Ret (RArr l).
 Proof. exact (@eval_slice_agrees V lc st name sr). Qed.
 Print Assumptions C10_eval_slice_agrees.
+
+(* ---------- slice-valued locations (pandas partial-string lookups, e.g. the year '2000' on a quarterly PeriodIndex):
+   whatever the lookup answers, a label slice starts at the start of the first location and stops at the stop of the second
+   if that is a slice (pandas' stop is already exclusive), at its position + 1 otherwise ---------- *)
+Theorem C10_resolve_slice_general (lc : label -> outcome loc) (sp : span) (a b : label) (s : option Z) (la lb : loc) :
+  lc a = Ret la -> lc b = Ret lb ->
+  resolve_slice_with lc sp (Some a) (Some b) s
+  = Ret (match la with LSlice i _ => i | LPos i _ => i end,
+         match lb with LSlice _ j => j | LPos j _ => j + 1 end,
+         match s with Some z => z | None => 1 end).
+Proof. exact (resolve_slice_general lc sp a b s la lb). Qed.
+Print Assumptions C10_resolve_slice_general.
+
+Theorem C10_slice_valued_get (V : Type) (lc : label -> outcome loc) (st : cstate V) (name : string) (sr : series V) (a b : label) (s : Z) (la lb : loc) :
+  lookup name (c_vars st) = Some sr -> lc a = Ret la -> lc b = Ret lb -> 0 < s ->
+  get_item_with lc st name (KSlice (Some a) (Some b) (Some s))
+  = Ret (RArr (gather (s_data sr)
+                (py_slice_positions (List.length (s_data sr))
+                   (Some (match la with LSlice i _ => i | LPos i _ => i end))
+                   (Some (match lb with LSlice _ j => j | LPos j _ => j + 1 end)) s))).
+Proof. exact (@slice_valued_get V lc st name sr a b s la lb). Qed.
+Print Assumptions C10_slice_valued_get.
+
+Theorem C10_slice_valued_label_get (V : Type) (lc : label -> outcome loc) (st : cstate V) (name : string) (sr : series V) (x : label) (i j : Z) :
+  lookup name (c_vars st) = Some sr -> lc x = Ret (LSlice i j) ->
+  get_item_with lc st name (KLabel x) = Ret (RArr (gather (s_data sr) (py_slice_positions (List.length (s_data sr)) (Some i) (Some j) 1))).
+Proof. exact (@slice_valued_label_get V lc st name sr x i j). Qed.
+Print Assumptions C10_slice_valued_label_get.
+
+(* a position outside the vector (either sign) is rejected and changes nothing — it never wraps to another period *)
+Theorem C10_write_pos_out_of_range (V : Type) (st : cstate V) (name : string) (sr : series V) (i : Z) (v : V) :
+  lookup name (c_vars st) = Some sr -> py_pos (List.length (s_data sr)) i = None ->
+  set_pos st name i v = (st, Raise IndexError).
+Proof. exact (@write_pos_out_of_range V st name sr i v). Qed.
+Print Assumptions C10_write_pos_out_of_range.
